@@ -202,6 +202,30 @@ theorem jar_roundtrip (items : List (List Char × List Char × List Char)) (hne 
     simp only [List.cons.injEq, true_and]
     exact ih (fun it' hit' => h it' (by simp [hit']))
 
+/-- **Round trip through the environ-level parser** (`werkzeug.http.parse_cookie`, which first undoes
+the WSGI latin-1 tunnelling): for an ASCII name and every Unicode value the result is the same. -/
+theorem environ_roundtrip (k v hv : List Char) (hk : ValidKey k) (hka : asciiText k = true)
+    (h : dumpValue v = .ok hv) :
+    parseCookieEnviron (k ++ '=' :: hv) = some [(k, v)] := by
+  have hascii : asciiText (k ++ '=' :: hv) = true := by
+    have hin := dump_value_inert v hv h
+    simp only [asciiText, List.all_append, List.all_cons, Bool.and_eq_true] at hka ⊢
+    refine ⟨hka, by decide, ?_⟩
+    apply List.all_eq_true.mpr
+    intro c hc
+    have := List.all_eq_true.mp hin c hc
+    simp only [inertChar, Bool.and_eq_true, decide_eq_true_eq] at this
+    simp only [decide_eq_true_eq]
+    omega
+  unfold parseCookieEnviron
+  rw [if_neg (by cases k <;> simp)]
+  have hd := dance_asciiText _ hascii
+  cases hl : Py.latin1Enc (k ++ '=' :: hv) with
+  | none => simp [hl] at hd
+  | some bs =>
+    simp only [hl, Option.map_some, Option.some.injEq] at hd ⊢
+    rw [hd, cookie_roundtrip k v hv hk h]
+
 example : jarText [("a".toList, "1".toList), ("sid".toList, "\"x\\073y\"".toList)] = "a=1; sid=\"x\\073y\"".toList := by
   decide
 
